@@ -51,21 +51,23 @@ func p(id string, rules []string, decided []string, notDecided, technique string
 
 func init() {
 	p("C01",
-		[]string{"T-ROUND", "T-SETEXP", "T-ARITH@Add(|Sub(|Mul(|Quo(", "T-UNARY@Set(|SetPrec(|Neg(|Abs("},
+		[]string{"T-ROUND", "T-SETEXP", "T-ARITH@Add(|Sub(|Mul(|Quo(", "T-UNARY@Set(|SetPrec(|Neg(|Abs(", "SIGN", "EXP", "WORD", "CARRY", "MUSTFLOW", "NORM", "PREC0@Add|Sub|Mul|Quo|Set|Neg|Abs|SetPrec"},
 		[]string{
 			"T-ROUND: the rounding decision of round() equals the IEEE 754 direction table for all 6 modes x 2 signs x 10 rounding digits x sticky (argument or mantissa) x parity, with the all-nines carry stepping the exponent or overflowing to Inf.",
 			"T-SETEXP: exponent underflow -> zero and overflow -> Inf of the result's sign before rounding; the caller's sticky bit is handed to round.",
 			"T-ARITH: for every operand class pair and mode the sign is final and the operands are in the right order before the unsigned operation, the receiver's own precision is in force, a zero operand yields the other operand rounded under ITS final sign.",
 			"T-UNARY: Set/SetPrec/Neg/Abs round exactly when the precision shrinks, with the documented sign.",
+			"SIGN: no store to the sign after a call that may round the same object (except Neg/Abs, documented, which nothing in the package builds on, and the exact-zero fix-up); EXP: no wide integer becomes the int32 exponent outside a [MinExp, MaxExp] test, exp+1 is guarded, the int64 exponent sum cannot wrap; WORD: only kernel results and reduced values enter a mantissa (in particular in the division add-back that feeds the sticky bit); CARRY: the all-nines carry of round and the top carry of dec.add are consumed; MUSTFLOW: the dnorm shift reaches the exponent and the division remainder reaches the sticky bit; NORM: every computed mantissa is normalised, then rounded, before a success exit.",
 		},
 		"that alignment shifts, digit positions, products and quotients are the right numbers (numeric core, not applicable to static analysis)",
 		techCDAI, cdaiAssume)
 	p("C02",
-		[]string{"T-ROUND", "T-SETEXP", "T-ARITH@Add(|Sub(|Mul(|Quo(|FMA(", "T-UNARY@Set(|SetPrec(|SetInf(|SetMode(|SetInt|SetUint64(|NewDecimal(|SetMantExp(", "FX-ACC"},
+		[]string{"T-ROUND", "T-SETEXP", "T-ARITH@Add(|Sub(|Mul(|Quo(|FMA(", "T-UNARY@Set(|SetPrec(|SetInf(|SetMode(|SetInt|SetUint64(|NewDecimal(|SetMantExp(", "FX-ACC", "SIGN", "MUSTFLOW@remainder", "WORD@divBasic|divLarge|divRecursiveStep"},
 		[]string{
 			"T-ROUND/T-SETEXP accuracy columns: acc = sign of (stored - exact) as a function of increment and sign; Exact iff rounding digit = 0 and no sticky; underflow/overflow accuracies.",
 			"T-ARITH/T-UNARY: every special-value result is reported Exact, the exact-cancellation branch reports Exact, no rounding happens under a sign that is flipped afterwards.",
 			"FX-ACC: every listed operation writes the accuracy on every success exit (also z.Set(z)), so no stale accuracy of an earlier operation survives.",
+			"SIGN(b): an accuracy computed for +y is never reused for -y (nothing builds on Neg/Abs); MUSTFLOW: a non-zero division remainder sets the sticky bit; WORD: the remainder words are valid decimal words (so `len(r) > 0` means inexact).",
 		},
 		"that the sticky bit summarises exactly the discarded digits (numeric)",
 		techCDAI, cdaiAssume, fxAssume)
@@ -79,11 +81,12 @@ func init() {
 		"the numeric result for finite operands; whether an intermediate product outside the exponent range is handled exactly",
 		techCDAI, cdaiAssume, fxAssume)
 	p("C04",
-		[]string{"T-ARITH", "T-UNARY@Sqrt(", "T-CONV@SetFloat", "PREC0", "FX-RBW"},
+		[]string{"T-ARITH", "T-UNARY@Sqrt(", "T-CONV@SetFloat", "PREC0", "FX-RBW", "PANIC", "ENUM", "GUARD", "WORD@divBasic|divLarge|divRecursiveStep|dec.sub|dec.add"},
 		[]string{
 			"T-ARITH: every class combination of Add/Sub/Mul/Quo/FMA in every mode gives the IEEE form and sign or panics with ErrNaN, and nothing else panics with ErrNaN.",
 			"T-UNARY: Sqrt special values (sqrt(±0)=±0, sqrt(+Inf)=+Inf, negative -> ErrNaN); T-CONV: SetFloat64(NaN) -> ErrNaN, no other class panics.",
 			"PREC0: no exported operation can reach round with an unexamined (possibly zero) precision (index out of range in round); FX-RBW: no setter dispatches on the receiver's previous form.",
+			"PANIC: census of all reachable panic sites: ErrNaN only in the seven documented operations, re-panics in package context, `unreachable` only behind switches that handle every enumerator (ENUM: form, mode and acc only ever receive declared enumerators), the rest tabled by (function, message) with its discharge argument — a new site fails; GUARD: every usub is dominated by a ucmp edge implying |a| >= |b| (dec.sub's underflow panic stays dead); WORD rules out the known cause of panic(\"impossible\").",
 		},
 		"absence of run-time panics (index, nil) in the numeric code paths in general; the cell (+0)+(-0) under ToNegativeInf is left unconstrained (the code follows math/big, see DESIGN §5 F15)",
 		techCDAI, cdaiAssume, fxAssume)
@@ -96,12 +99,29 @@ func init() {
 		},
 		"that prec+2 working digits and the final multiplication give the correctly rounded root (numeric, not applicable)",
 		techCDAI, cdaiAssume, fxAssume)
+	p("C06",
+		[]string{"WORD", "CARRY", "ALIASGUARD", "OVERLAP", "POOL", "INIT", "NORMARG", "FX-GLOBAL@Threshold|decLeafSize|decPool", "CONST@threshold", "FX-IMMUT@dec.|decBasic|decKaratsuba|decAddAt"},
+		[]string{
+			"WORD: every value stored into a mantissa word and every scalar word handed to a decimal kernel in mul/sqr/div and their helpers is a kernel result, a reduced value, a loaded word or a constant below the base (exceptions tabled with a count); CARRY: every carry/borrow/remainder is consumed except at tabled sites (one more discard fails).",
+			"ALIASGUARD/OVERLAP: result buffers are not reused while they overlap an operand; in-place kernel uses have matching offsets; POOL: scratch buffers are owned exclusively between getDec and putDec; INIT: accumulating routines start from cleared or fully produced buffers (any-range); NORMARG: dec.cmp only sees normalised operands.",
+			"FX-GLOBAL/CONST: the tuning thresholds are written by nobody outside test code and are initialised to constants >= 2; FX-IMMUT: the dec-layer routines never write a source slice.",
+		},
+		"that Karatsuba, schoolbook and recursive code compute the same product/quotient (arithmetic), buffer-length contracts (len(z) >= 6n), the partial clear in mul, the numeric `impossible` guards: NOT APPLICABLE to static analysis",
+		"provenance dataflow on stored words, use-def of kernel results, dominance of alias guards and initialisers, slice-root analysis", fxAssume)
+	p("C08",
+		[]string{"WORD", "NORM", "EXP", "PREC0", "ENUM", "FX-OWN", "GOB@G2", "SIGN@usub"},
+		[]string{
+			"An inductive invariant over all operation sequences, one clause per rule, the induction step being per exported method: words < base (WORD, and GOB G2 for decoded words); a computed mantissa is normalised and rounded before it can be observed as finite (NORM); the exponent stays within [MinExp, MaxExp] (EXP); finite implies precision > 0 (PREC0 and GOB G2 digits<=prec); form, mode and acc hold declared enumerators only (ENUM); each Decimal owns its mantissa array (FX-OWN).",
+		},
+		"`no non-zero digit beyond the precision` (the arithmetic of round's lsd) and normalisation of values returned by dec-layer functions (they end in .norm(); not re-derived)",
+		"typestate and provenance dataflow on the SSA form, dominance of range tests", fxAssume)
 	p("C07",
-		[]string{"CONST", "ASM", "ASM-PURE", "BUILDTAGS", "FX-IMMUT@_g/|VV/|VW/|VU/|WW/"},
+		[]string{"CONST", "ASM", "ASM-PURE", "BUILDTAGS", "FX-IMMUT@_g/|VV/|VW/|VU/|WW/", "OVERLAP"},
 		[]string{
 			"E6-CONST: word-base constants (_DB=10^_DW, _DW, _DWb, _DMax), pow10tab, pow2digitsTab, decMaxPow32/64, pow5tab, the reciprocal constant mP of div10W_g, every pow10DivTab64/32 entry (exact-division criterion proved for every word-sized dividend), layout of struct magic, enumerator equality with math/big.",
 			"E7-ASM: the TEXT symbols of dec_arith_amd64.s are exactly the body-less declarations; every name+off(FP) reference matches the Go signature's frame layout and every result slot is written; #define _DB/_DMax/_DW and the reciprocal immediate equal the Go constants; every memory store goes through R10, loaded exactly once from z+0(FP), or into a result slot (kernels write only their destination); the 4x unrolled bodies of add10VV, sub10VV, add10VW, sub10VW and decCpy equal their tail loop instantiated four times; the three inlined copies of div10W equal div10W.",
 			"ASM-PURE (pure-Go configurations): every kernel wrapper forwards its own parameters in order to the _g twin of the same name and signature; BUILDTAGS: assembly declarations and wrappers are exact complements over all occurring tags, the .s file follows the declarations, nothing else is build-conditional and no code dispatches on the architecture at run time; FX-IMMUT: the portable twins write only their destination slice.",
+			"OVERLAP: census of every in-place kernel call site into the overlap patterns the kernels are written for (same offset for elementwise kernels, safe direction for the shifts).",
 		},
 		"instruction-level equivalence of an assembly body and its portable twin (needs symbolic execution of x86 code, a different technique family); that either equals the mathematical definition",
 		"lints over the assembly text and build constraints, sibling-congruence of unrolled/inlined code sequences, constant/table evaluation (go/types constants + math/big on source constants)", fxAssume)
@@ -116,11 +136,12 @@ func init() {
 		"the parse path's default of 34 is checked only as 'assigned on every success exit'",
 		techFX+"; plus E4 tables", cdaiAssume, fxAssume)
 	p("C10",
-		[]string{"T-ARITH-ALIAS", "FX-RBW", "FX-RAW", "FX-OWN"},
+		[]string{"T-ARITH-ALIAS", "FX-RBW", "FX-RAW", "FX-OWN", "ALIASGUARD", "OVERLAP", "INIT"},
 		[]string{
 			"T-ARITH-ALIAS: the dispatch tables of Add/Sub/Mul/Quo/FMA hold under every binding of the receiver to an operand and of operands to each other, with the receiver's previous form, sign and accuracy unknown.",
 			"FX-RBW: no result-defining operation reads the form, sign, accuracy, exponent, mantissa words or mantissa length its receiver held on entry (no read, no dependence).",
 			"FX-RAW: for every (result, operand) pair of every function, no operand field is read after the same field of the result was written unless distinctness was established; FX-OWN: every Decimal owns its mantissa array.",
+			"ALIASGUARD: mul, sqr and divLarge test alias(result, source) and drop their buffer before letting a non-elementwise routine write into it; OVERLAP: kernels used in place get destination and source at the same offset, dec methods called in place are the in-place-safe ones; INIT: accumulating routines never see stale words of a reused buffer (any-range).",
 		},
 		"stale words in a reused mantissa buffer (dec.make does not clear) beyond the INIT rule",
 		techFX+"; plus E4 tables under aliasing", cdaiAssume, fxAssume)
@@ -151,11 +172,12 @@ func init() {
 		"digit counts, %g exponent thresholds, padding and layout: NOT APPLICABLE to static analysis (arithmetic on run-time lengths); thin necessary-condition claim only",
 		"shape rules on the SSA form of Append/Format (receiver chain of the rounding copy, dominance of the precision test, lower-bound reasoning on the requested precision)", fxAssume)
 	p("C14",
-		[]string{"T-CONV@Int64(|Uint64(|Int(|Rat(", "T-UNARY@SetInt|SetUint64(|NewDecimal(|MinPrec(|IsInt(", "FX-STICKY@SetInt|SetUint64|SetRat|setBits64", "PREC0@SetInt|SetUint64|SetRat|setBits64|NewDecimal"},
+		[]string{"T-CONV@Int64(|Uint64(|Int(|Rat(", "T-UNARY@SetInt|SetUint64(|NewDecimal(|MinPrec(|IsInt(", "FX-STICKY@SetInt|SetUint64|SetRat|setBits64", "PREC0@SetInt|SetUint64|SetRat|setBits64|NewDecimal", "EXP@setBits64|SetInt", "NORM@setBits64|SetInt", "MUSTFLOW@setBits64|SetInt", "SIGN@SetInt|setBits64"},
 		[]string{
 			"T-CONV: Int64/Uint64/Int/Rat for ±0, ±Inf and finite values by exponent class give the documented saturation values and accuracies.",
 			"T-UNARY: SetInt/SetInt64/SetUint64/NewDecimal set the sign before rounding, +0 for a zero argument, keep a non-zero precision and choose the documented default otherwise; MinPrec/IsInt special cases.",
 			"FX-STICKY/PREC0 for the integer setters.",
+			"EXP(iii): NewDecimal's caller-supplied exponent is clamped before it enters the int64 sum (saturation to ±0/±Inf instead of wrap-around); NORM/MUSTFLOW/SIGN for the integer setters.",
 		},
 		"exactness of the radix conversions and of SetInt's precision estimate (numeric)",
 		techCDAI, cdaiAssume, fxAssume)
@@ -168,10 +190,11 @@ func init() {
 		"nearest/faithful rounding of the conversions, double rounding in Float32/Float64 (numeric, not applicable)",
 		techCDAI, cdaiAssume, fxAssume)
 	p("C16",
-		[]string{"T-CMP", "FX-DEP"},
+		[]string{"T-CMP", "FX-DEP", "CMPSYM"},
 		[]string{
 			"T-CMP: Cmp over all 36 class pairs x the three possible results of ucmp: classes ordered -Inf < -finite < ±0 < +finite < +Inf, equal-sign finite values compared by exactly one ucmp in the right operand order, independent of precision/mode/accuracy of the operands; Sign, IsZero, IsInf, Signbit agree with the classification.",
 			"FX-DEP: Cmp, ucmp, ord, Sign, Signbit, IsZero, IsInf write nothing and read no precision, mode or accuracy.",
+			"CMPSYM: inside Cmp, ucmp and dec.cmp every `a < b -> -1` has the sibling `a > b -> +1` over the same operands (no one-sided or non-strict comparison) and ucmp decides on the exponents before the mantissa words.",
 		},
 		"that ucmp's zero-padding loop compares the right words (loop arithmetic)",
 		techCDAI, cdaiAssume, fxAssume)
@@ -195,18 +218,20 @@ func init() {
 		"numeric correctness of the wrapped operation (C01); that NewFloat64(NaN) panics through a Context is recorded as an observation, not armed",
 		"typestate rules on the SSA form of package context (dominance of the latch test, must-call of apply, shape of the deferred recover handlers)", fxAssume)
 	p("C18",
-		[]string{"FX-IMMUT", "FX-OWN", "FX-GLOBAL"},
+		[]string{"FX-IMMUT", "FX-OWN", "FX-GLOBAL", "POOL", "ASM@stores/"},
 		[]string{
 			"A data race needs two accesses to one location, one of them a write. FX-IMMUT + FX-OWN: every function writes only memory rooted at its result parameter, fresh allocations or scratch buffers, never fields or mantissa words of an operand, and no two Decimals share an array.",
 			"FX-GLOBAL: no package-level variable is written after init (the tuning thresholds only by test code), the shared Decimals oneHalf/three are only ever operands, decPool is a sync.Pool.",
+			"POOL: a pooled scratch buffer is put back at most once on any path, never used afterwards, never returned or stored into a Decimal (temps[depth] released by its owner); ASM stores/: every assembly kernel stores only through its destination pointer or into result slots.",
 		},
 		"exclusive ownership of pooled scratch buffers between getDec and putDec (POOL rule) and the store targets of the assembly kernels (E7) where not yet listed; equality of concurrent and sequential results beyond 'no shared write'",
 		techFX, fxAssume)
 	p("C20",
-		[]string{"T-UNARY@MantExp(|SetMantExp(", "PREC0@SetBitsExp|SetMantExp|MantExp", "FX-RBW@SetBitsExp|SetMantExp", "FX-RAW@MantExp|SetMantExp", "FX-OWN@BitsExp|SetBitsExp|MantExp|SetMantExp|Copy", "FX-STICKY@SetBitsExp"},
+		[]string{"T-UNARY@MantExp(|SetMantExp(", "PREC0@SetBitsExp|SetMantExp|MantExp", "FX-RBW@SetBitsExp|SetMantExp", "FX-RAW@MantExp|SetMantExp", "FX-OWN@BitsExp|SetBitsExp|MantExp|SetMantExp|Copy", "FX-STICKY@SetBitsExp", "EXP@SetBitsExp|SetMantExp", "NORM@SetBitsExp", "MUSTFLOW@SetBitsExp", "SIGN@SetBitsExp"},
 		[]string{
 			"T-UNARY: MantExp returns 0 and copies form/sign for ±0/±Inf, returns x's exponent and leaves mant with exponent 0 otherwise (also for mant nil and mant = x); SetMantExp copies zeros/infinities without scaling and enters setExpAndRound with exponent(mant)+exp and the sign already set, also for z = mant.",
 			"PREC0: SetBitsExp/SetMantExp never round with precision 0; FX-RBW: nothing of the old receiver is read; FX-RAW: MantExp(x == mant) and SetMantExp(z == mant) have no read-after-write hazard; FX-OWN: the only functions that share a mantissa array with the caller are SetBitsExp and BitsExp (documented).",
+			"EXP(iii): the int64 exponent arithmetic of SetBitsExp/SetMantExp cannot wrap before the range check (caller's term clamped); NORM + MUSTFLOW: SetBitsExp strips zero words, normalises, and both corrections reach the exponent.",
 		},
 		"the exponent-correction arithmetic of SetBitsExp/BitsExp (numeric)",
 		techCDAI, cdaiAssume, fxAssume)
